@@ -569,7 +569,15 @@ impl Sim for C20 {
     let n_models = 1 + rng.index(3);
     let mut models: Vec<String> = vec![];
     for _ in 0..n_models {
-      let m = if rng.chance(1, 3) { "gen".to_string() } else { rng.pick(&s.models).clone() };
+      // a model is drawn through a random workload row half of the time, so models with many invocables and
+      // inputs (the lending example, the decision service and built-in function suites) come up more often
+      let m = if rng.chance(1, 3) {
+        "gen".to_string()
+      } else if rng.chance(1, 2) {
+        s.rows[rng.index(s.rows.len())].model.clone()
+      } else {
+        rng.pick(&s.models).clone()
+      };
       if !models.contains(&m) {
         models.push(m);
       }
